@@ -370,7 +370,7 @@ PARTS: list[Part] = [
     custom_part("slots", drive_slots, check_slots, {"quick": 12, "thorough": 16}),
     hyp_part("positives", strat_positives, check_positive, {"quick": 1500, "thorough": 25000},
              {"quick": 2, "thorough": 16}),
-    hyp_part("mutations", strat_mutations, check_mutation, {"quick": 2000, "thorough": 60000},
+    hyp_part("mutations", strat_mutations, check_mutation, {"quick": 2000, "thorough": 35000},
              {"quick": 4, "thorough": 16}),
     hyp_part("sections", strat_sections, check_section, {"quick": 150, "thorough": 3000},
              {"quick": 4, "thorough": 16}),
